@@ -312,8 +312,9 @@ def model_table(val):
 def known_constant_crash(case, res):
     """`--heuristic Constant` never writes the checkpoint inside the loop, so without a tail batch the final
     os.remove('ranking_checkpoint_tmp.tsv') raises AFTER pairwise_ranks.tsv was written (known observation, C08/C09 notes)."""
-    return (case["heuristic"] == H_CONST and not res.get("ok") and res.get("error_type") == "FileNotFoundError"
-            and "ranking_checkpoint_tmp" in (res.get("error_filename") or res.get("error") or ""))
+    # Repaired in /repo by fix 4add6a4 (the checkpoint is removed only if it exists): the crash is no longer an accepted
+    # behaviour — a Constant run that ends in this error is reported like any other abnormal termination.
+    return False
 
 
 def score_close(f, q):
